@@ -43,7 +43,7 @@ var externalEffects = map[string][]string{
 	"time.Sleep": {EffSleep}, "time.Now": nil, "time.Unix": nil, "time.Until": nil, "time.Since": nil, "time.NewTicker": nil, "(*time.Ticker).Stop": nil,
 	"(time.Time).Add": nil, "(time.Time).UnixNano": nil, "(time.Time).Sub": nil, "(time.Time).After": nil, "(time.Time).Before": nil, "(time.Time).IsZero": nil, "(time.Time).Unix": nil,
 	"(time.Duration).Nanoseconds": nil,
-	"reflect.TypeOf": nil, "(*reflect.rtype).Elem": nil, "(*reflect.rtype).Kind": nil,
+	"reflect.TypeOf":              nil, "(*reflect.rtype).Elem": nil, "(*reflect.rtype).Kind": nil,
 	"fmt.Sprintf": nil, "fmt.Sprint": nil, "fmt.Errorf": nil,
 	"math/bits.TrailingZeros64": nil, "math/bits.LeadingZeros64": nil, "math/bits.Len64": nil,
 	"(*strings.Builder).WriteString": nil, "(*strings.Builder).String": nil,
